@@ -6,7 +6,7 @@ in-memory patch overlay; /repo is not modified)."""
 import json, os, re, shutil, subprocess, sys
 
 sid = sys.argv[1]
-src = f"/tmp/seeded/out/{sid}"
+src = f"/tmp/seed/{sid.split(chr(45))[0]}/out/{sid}"
 dst = f"/verif/seeded/{sid}"
 conf = open(f"{src}/confirm.txt").read().strip()
 m = re.match(r"unmodified: exit=(\d+) ; modified: exit=(\d+)", conf)
